@@ -362,6 +362,24 @@ func runC03(r *core.Run) {
 			return core.Outcome{Class: fmt.Sprint("tag=", inTag), Nontrivial: l >= 2, Evals: 4}
 		})
 
+	firstBytes(r, "sam", func(prefix string) ([]byte, []obsItem, bool, string) {
+		if hasDelim(prefix) || prefix[0] == '@' {
+			return nil, nil, false, ""
+		}
+		first, second := defaultSamRec(), defaultSamRec()
+		first.Qname, second.Qname = core.S(prefix+"q"), "second"
+		var data []byte
+		var want []obsItem
+		for _, rc := range []samRec{first, second} {
+			d, fail := writeSAMChecked(rc.build())
+			if fail != "" {
+				return nil, nil, true, fail
+			}
+			data = append(data, d...)
+			want = append(want, obsItem{Rec: renderSAM(rc.build())})
+		}
+		return data, want, true, ""
+	})
 	interleavedReadersFor(r, []string{"sam", "samh"})
 	consumerMutatesRecords(r, []string{"sam", "samh"})
 	bigFiles(r, "sam", []int{0})
